@@ -167,6 +167,8 @@ type World struct {
 	KeepLog  bool
 	ctlIdx   int
 	lastHash uint64
+	// LastCredited: the contract that most recently accepted a destination-side transfer (scheduler bias)
+	LastCredited []byte
 	parser   vmcommon.ESDTTransferParser
 	// options
 	CheckCodec  bool
@@ -837,6 +839,9 @@ func (w *World) Deliver(id string, fault []int) bool {
 	w.logf("deliver %s kind=%s shard=%d", m.ID, m.Kind, m.DstShard)
 	ex, vd := w.Run(m, fault)
 	ok := ex.Succeeded() && vd != nil && vd.MustFail == ""
+	if ok && vd.Side == "dest" && spec.IsContract(m.Rcv) {
+		w.LastCredited = append([]byte{}, m.Rcv...)
+	}
 	if !ok && ex.FaultHit && (m.Kind == KindControl || m.Tag != "") {
 		// a control or hand-over message whose execution was rolled back by an injected dependency
 		// failure is processed again later (same place in its stream): the system-contract model
